@@ -71,7 +71,7 @@ pub mod crypto {
             ensures r matches Ok(v) ==> v@ == key_pem(*self) { unimplemented!() }
         #[verifier::external_body]
         pub fn from_pem(pem: &Vec<u8>) -> (r: Result<KeyPair, Error>)
-            ensures r matches Ok(k) ==> pem_key(pem@) == Some(k) { unimplemented!() }
+            ensures r matches Ok(k) ==> pem_key(pem@) == Some(k), (r is Ok) == (pem_key(pem@) is Some) { unimplemented!() }
     }
     // acme_common gen_keypair (unit keys): a fresh key of the requested type
     #[verifier::external_body]
